@@ -1,15 +1,21 @@
 """C19 - client spec bunching preserves order and limits.
 
 Real code: hailtop.batch_client.aioclient.Batch._create_bunches(job_group_specs, job_specs, max_bunch_bytesize, max_bunch_size),
-called (unbound, it does not use self) exactly like Batch._submit does: two lists of spec *dicts*, the function serialises each
-with orjson.dumps and returns List[List[SpecBytes]].  Caller preconditions (asserts in the function and in Batch.submit):
+called as Batch._submit calls it (bound method of a Batch made by the real constructors): two lists of spec *dicts*, the
+function serialises each with orjson.dumps and returns List[List[SpecBytes]].  Caller preconditions (asserts in the function and in Batch.submit):
 max_bunch_bytesize > 0, max_bunch_size > 0 and every serialised spec is strictly smaller than max_bunch_bytesize.  Consumers:
 _submit_job_group_bunches / _submit_job_bunches walk the same bunch list and post the JOB_GROUP resp. JOB members of each bunch
 (a bunch may hold both kinds: the property does not forbid it and the consumers filter by kind), _create_fast/_update_fast take a
 single bunch; _submit_spec_bunch asserts a non-empty list, so empty bunches are forbidden.
+
+The Batch object is built the way real callers build it: BatchClient(billing_project, url, session, headers).create_batch(...)
+with a fake session (the real Batch.__init__ runs, so an attribute added there is harmless), and _create_bunches is called as a
+bound method.  Besides single calls on a fresh Batch there are SEQUENCES of calls on ONE Batch (see RULE): the function is used once
+per submit()/update and again when a failed submit is retried, so whatever it keeps between calls is part of the property.
 """
 from __future__ import annotations
 
+import asyncio
 import itertools
 import json
 
@@ -25,11 +31,26 @@ RULE = ('0-40 job-group specs and 0-200 job specs, each a dict whose serialised 
         'Oracle: concatenated bunches == [dumps(g) for g in groups] + [dumps(j) for j in jobs] byte for byte, kinds '
         'JOB_GROUP* then JOB*, no empty bunch, every bunch has <= max_bunch_size specs and its spec bytes sum to <= '
         'max_bunch_bytesize. Greedy maximality is not required. '
-        'Non-trivial: the result has >= 2 bunches and the input has both job groups and jobs; distinct by case.')
+        'Non-trivial: the result has >= 2 bunches and the input has both job groups and jobs; distinct by case. '
+        'SEQUENCES on one Batch (seq shards), 2-7 calls each with its own limits: via=call - every step either builds NEW spec '
+        'dicts (the previous ones are dropped first, so CPython hands their addresses out again: class seq_spec_id_recurs) or '
+        'RETRIES with the same spec objects, some edited in place (padding resized / rewritten) and new ones appended; '
+        'via=submit - the real create_job_group/create_job/submit() against a recording fake server that can fail the k-th '
+        'request of a submit (the specs then stay pending, the caller edits the attributes dicts it passed - which the spec '
+        'shares - adds jobs and submits again); _create_bunches is observed through a pass-through wrapper on the instance. '
+        'Spec contents carry the step number so that bytes of an earlier call are distinguishable. Oracle per call: the '
+        'single-call oracle against THAT call\'s specs as they are at call time, plus (submit) the specs posted to the server '
+        'are that update\'s specs. A failure that a fresh Batch does not show for the same specs gets the prefix seq-. '
+        'Non-trivial sequence: >= 2 calls and a later call yields >= 2 bunches.')
 ASSUMPTIONS = ['"byte limit" is the sum of the serialised spec sizes in a bunch (what the code counts), not the size of the HTTP body',
                'orjson is absent from the sandbox: hostenv serves a json-backed orjson.dumps; the expected bytes are computed with '
                'the same function object the client uses, so only sizes of ASCII specs matter']
-TRUSTED = ['hostenv orjson shim (json.dumps with compact separators)', 'case -> spec builder in checks/c19.py']
+ASSUMPTIONS += ['a caller may pass different limits to every submit() and may edit the attributes dict it handed to create_job / '
+                'create_job_group until the submit that carries it has succeeded (the spec holds the dict by reference)',
+                'the order in which the parallel job-bunch posts reach the server is not part of the property (ids are inside the '
+                'specs); only the bunch list returned by _create_bunches is order-checked']
+TRUSTED = ['hostenv orjson shim (json.dumps with compact separators)', 'case -> spec builder in checks/c19.py',
+           'fake batch server in checks/c19.py (answers create/create-fast/update-fast/updates/commit with consecutive ids)']
 
 _mod = None
 
@@ -39,8 +60,96 @@ def mod():
     if _mod is None:
         hostenv.install()
         import hailtop.batch_client.aioclient as ac
-        _mod = dict(ac=ac, fn=ac.Batch._create_bunches, dumps=ac.orjson.dumps, JOB=ac.SpecType.JOB, JG=ac.SpecType.JOB_GROUP)
+        _mod = dict(ac=ac, dumps=ac.orjson.dumps, JOB=ac.SpecType.JOB, JG=ac.SpecType.JOB_GROUP)
     return _mod
+
+
+class _Injected(Exception):
+    """The fake server's generated failure."""
+
+
+class _Resp:
+    headers: dict = {}
+
+    def __init__(self, body):
+        self._body = body
+
+    async def json(self):
+        return self._body
+
+
+class FakeSession:
+    """Stands where hailtop.aiocloud.common.Session stands in BatchClient: records every request, answers like the batch front end
+    (consecutive batch/update/job ids).  `fail_at` = index of the request (within the current submit) that raises."""
+
+    def __init__(self):
+        self.requests = []          # (method, path, decoded body) of the current submit
+        self.fail_at = None
+        self.batch_id = None
+        self.next_update = 1
+        self.next_job = 1
+        self.next_group = 1
+        self.updates = {}           # update id -> [n_groups, n_jobs]
+
+    def begin(self, fail_at):
+        self.requests = []
+        self.fail_at = fail_at
+
+    def _reserve(self, n_groups, n_jobs):
+        g, j = self.next_group, self.next_job
+        self.next_group += n_groups
+        self.next_job += n_jobs
+        return g, j
+
+    async def post(self, url, data=None, json=None, headers=None):
+        return self._handle('POST', url, data, json)
+
+    async def patch(self, url, headers=None):
+        return self._handle('PATCH', url, None, None)
+
+    def _handle(self, method, url, data, js):
+        import json as _json
+        path = url.split('batch.hail.test', 1)[-1]
+        body = js if data is None else _json.loads(bytes(data._value))
+        k = len(self.requests)
+        self.requests.append((method, path, body))
+        if self.fail_at is not None and k == self.fail_at:
+            raise _Injected(f'request {k} ({path}) failed')
+        if path.endswith('/batches/create-fast'):
+            self.batch_id = 1
+            g, j = self._reserve(len(body['job_groups']), len(body['bunch']))
+            return _Resp({'id': 1, 'start_job_group_id': g, 'start_job_id': j})
+        if path.endswith('/batches/create'):
+            self.batch_id = 1
+            if body['n_jobs'] == 0 and body['n_job_groups'] == 0:
+                return _Resp({'id': 1, 'update_id': None})
+            u = self.next_update
+            self.next_update += 1
+            self.updates[u] = [body['n_job_groups'], body['n_jobs']]
+            return _Resp({'id': 1, 'update_id': u})
+        if path.endswith('/update-fast'):
+            g, j = self._reserve(len(body['job_groups']), len(body['bunch']))
+            return _Resp({'start_job_group_id': g, 'start_job_id': j})
+        if path.endswith('/updates/create'):
+            u = self.next_update
+            self.next_update += 1
+            self.updates[u] = [body['n_job_groups'], body['n_jobs']]
+            return _Resp({'update_id': u})
+        if path.endswith('/commit'):
+            u = int(path.split('/updates/')[1].split('/')[0])
+            g, j = self._reserve(*self.updates[u])
+            return _Resp({'start_job_group_id': g, 'start_job_id': j})
+        if path.endswith('/jobs/create') or path.endswith('/job-groups/create'):
+            return _Resp({})
+        raise AssertionError(f'fake batch server: unexpected request {method} {path}')
+
+
+def new_batch():
+    """A Batch as real callers get one: real BatchClient.__init__ and create_batch -> real Batch.__init__."""
+    ac = mod()['ac']
+    session = FakeSession()
+    client = ac.BatchClient('bp1', 'http://batch.hail.test', session, {'Authorization': 'Bearer t'})
+    return client.create_batch(attributes={'name': 'c19'}, token='c19-token'), session
 
 
 def _spec(key, i, target):
@@ -68,20 +177,9 @@ def limits(case, groups, jobs):
     return biggest + max(1, case['delta']), max(1, case['max_size'])
 
 
-def run_case(case):
-    m = mod()
-    groups, jobs = build(case)
-    B, N = limits(case, groups, jobs)
+def judge(m, groups, jobs, B, N, bunches, expected):
+    """The single-call oracle: `bunches` is what _create_bunches returned for (groups, jobs, B, N); `expected` the reference bytes."""
     fails = []
-    cls = []
-    expected = [m['dumps'](s) for s in groups] + [m['dumps'](s) for s in jobs]
-    if any(len(b) >= B for b in expected):           # cannot happen with the shim; guards the caller precondition
-        return False, ['precondition_not_met'], []
-    try:
-        bunches = m['fn'](None, groups, jobs, B, N)
-    except Exception as e:
-        return True, cls, [(f'raises-{type(e).__name__}', '_create_bunches returns bunches for inputs meeting its preconditions',
-                            f'{type(e).__name__}: {e} (B={B}, N={N}, sizes={[len(b) for b in expected][:20]})')]
     flat = [sb for bunch in bunches for sb in bunch]
     got = [sb.spec_bytes for sb in flat]
     if got != expected:
@@ -93,6 +191,8 @@ def run_case(case):
             sig, what = 'order-changed', 'same specs in a different order'
         else:
             sig, what = 'specs-altered', 'spec bytes differ'
+            d = next(i for i, (a, b) in enumerate(zip(got, expected)) if a != b)
+            what += f' (first at {d}: got {got[d][:60]!r} want {expected[d][:60]!r})'
         fails.append((sig, 'concatenated bunches are exactly the group specs then the job specs, byte-identical, in order',
                       f'{what}: B={B} N={N} n_groups={len(groups)} n_jobs={len(jobs)} bunch sizes={[len(b) for b in bunches]}'))
     kinds = [sb.typ for sb in flat]
@@ -101,7 +201,7 @@ def run_case(case):
         fails.append(('kinds-wrong', 'all job groups come before all jobs and each spec keeps its kind',
                       f'kinds {[k.value for k in kinds][:30]}'))
     for bi, bunch in enumerate(bunches):
-        nb = sum(sb.n_bytes for sb in bunch)
+        nb = sum(len(sb.spec_bytes) for sb in bunch)
         if len(bunch) == 0:
             fails.append(('empty-bunch', 'no bunch is empty', f'bunch {bi} of {len(bunches)} is empty (B={B}, N={N})'))
         if len(bunch) > N:
@@ -109,7 +209,27 @@ def run_case(case):
                           f'bunch {bi} has {len(bunch)} specs > max_bunch_size {N}'))
         if nb > B:
             fails.append(('byte-limit-exceeded', 'every bunch has at most max_bunch_bytesize spec bytes',
-                          f'bunch {bi} has {nb} bytes > max_bunch_bytesize {B} (spec sizes {[sb.n_bytes for sb in bunch]})'))
+                          f'bunch {bi} has {nb} bytes > max_bunch_bytesize {B} (spec sizes {[len(sb.spec_bytes) for sb in bunch]})'))
+    return fails
+
+
+def run_case(case):
+    if case.get('seq'):
+        return run_seq(case)
+    m = mod()
+    groups, jobs = build(case)
+    B, N = limits(case, groups, jobs)
+    cls = []
+    expected = [m['dumps'](s) for s in groups] + [m['dumps'](s) for s in jobs]
+    if any(len(b) >= B for b in expected):           # cannot happen with the shim; guards the caller precondition
+        return False, ['precondition_not_met'], []
+    batch, _ = new_batch()
+    try:
+        bunches = batch._create_bunches(groups, jobs, B, N)
+    except Exception as e:
+        return True, cls, [(f'raises-{type(e).__name__}', '_create_bunches returns bunches for inputs meeting its preconditions',
+                            f'{type(e).__name__}: {e} (B={B}, N={N}, sizes={[len(b) for b in expected][:20]})')]
+    fails = judge(m, groups, jobs, B, N, bunches, expected)
     # classes
     if not expected:
         cls.append('empty_input')
@@ -130,11 +250,262 @@ def run_case(case):
     return len(bunches) >= 2 and bool(groups) and bool(jobs), cls, fails
 
 
+# ---------------------------------------------------------------------------------------------------------------------------
+# sequences of calls on ONE Batch
+
+def _pad(step, edited=False):
+    """Spec contents name the call they were made for, so bytes kept from an earlier call are never accidentally right."""
+    return ('ABCDEFGHIJKLMNOPQRSTUVWXYZ' if edited else 'abcdefghijklmnopqrstuvwxyz')[step % 26]
+
+
+def _seq_spec(key, i, target, ch):
+    s = _spec(key, i, target)
+    if 'p' in s:
+        s['p'] = ch * len(s['p'])
+    return s
+
+
+def _resize(spec, key, i, target, ch):
+    """Edit `spec` IN PLACE (same dict object) so that it serialises to ~`target` bytes with padding character `ch`."""
+    new = _seq_spec(key, i, target, ch)
+    spec.clear()
+    spec.update(new)
+
+
+def _apply_edits(groups, jobs, edits, ch):
+    """In-place edits of live spec dicts (no reference to a spec survives the call)."""
+    n_edited = size_changed = 0
+    n = len(groups) + len(jobs)
+    for idx, target in edits:
+        if not n:
+            break
+        k = idx % n
+        key, i, spec = ('g', k + 1, groups[k]) if k < len(groups) else ('i', k - len(groups) + 1, jobs[k - len(groups)])
+        before = _size(spec)
+        _resize(spec, key, i, target, ch)
+        n_edited += 1
+        size_changed += _size(spec) != before
+    return n_edited, size_changed
+
+
+def _fresh_ok(m, groups, jobs, B, N, expected):
+    """Does a FRESH Batch answer correctly for these very spec objects and limits?"""
+    try:
+        fresh = new_batch()[0]._create_bunches(groups, jobs, B, N)
+        return not judge(m, groups, jobs, B, N, fresh, expected)
+    except Exception:
+        return False
+
+
+def _judge_call(m, si, groups, jobs, B, N, bunches, expected, fails):
+    """Single-call oracle for call number `si` of a sequence; a failure that a FRESH Batch does not show for the very same spec
+    objects and limits depends on the earlier calls and is reported as seq-<signature>."""
+    fl = judge(m, groups, jobs, B, N, bunches, expected)
+    if not fl:
+        return
+    history = si > 0 and _fresh_ok(m, groups, jobs, B, N, expected)
+    for sig, cl, msg in fl:
+        if history:
+            fails.append((f'seq-{sig}', cl + ' - on every call made on a Batch, whatever calls preceded it',
+                          f'call #{si + 1} on the same Batch (a fresh Batch answers correctly for the same specs): {msg}'))
+        else:
+            fails.append((sig, cl, f'call #{si + 1}: {msg}'))
+
+
+def _seq_classes(cls, si, bunches, recur, n_edited, size_changed, prev_limits, B, N):
+    if si >= 1:
+        cls.add('seq_later_call')
+        if len(bunches) >= 2:
+            cls.add('seq_later_call_multi_bunch')
+        if len(bunches) == 1:
+            cls.add('seq_later_call_single_bunch')
+        if recur:
+            cls.add('seq_spec_id_recurs')
+        if n_edited:
+            cls.add('seq_spec_edited_in_place')
+        if size_changed:
+            cls.add('seq_edit_changes_size')
+        if prev_limits is not None and prev_limits != (B, N):
+            cls.add('seq_limits_change_between_calls')
+
+
+def _run_seq_calls(case, m, cls, fails):
+    """via=call: _create_bunches called directly, several times, on one Batch."""
+    batch, _ = new_batch()
+    groups, jobs = [], []
+    freed_ids = set()
+    prev_limits = None
+    later_multi = False
+    for si, step in enumerate(case['steps']):
+        n_edited = size_changed = 0
+        if step.get('retry') and si > 0:
+            cls.add('seq_retry_same_objects')
+            n_edited, size_changed = _apply_edits(groups, jobs, step.get('edits', []), _pad(si, True))
+            if step['jg'] or step['jobs']:
+                cls.add('seq_retry_adds_specs')
+            groups = groups + [_seq_spec('g', len(groups) + i + 1, t, _pad(si)) for i, t in enumerate(step['jg'])]
+            jobs = jobs + [_seq_spec('i', len(jobs) + i + 1, t, _pad(si)) for i, t in enumerate(step['jobs'])]
+        else:
+            # like submit(): the submitted specs are dropped, the next update is made of new dicts
+            freed_ids.update(id(s) for s in groups + jobs)
+            groups = jobs = None
+            groups = [_seq_spec('g', i + 1, t, _pad(si)) for i, t in enumerate(step['jg'])]
+            jobs = [_seq_spec('i', i + 1, t, _pad(si)) for i, t in enumerate(step['jobs'])]
+        B, N = limits(step, groups, jobs)
+        expected = [m['dumps'](s) for s in groups] + [m['dumps'](s) for s in jobs]
+        try:
+            bunches = batch._create_bunches(groups, jobs, B, N)
+        except Exception as e:
+            pre = 'seq-' if si > 0 and _fresh_ok(m, groups, jobs, B, N, expected) else ''
+            fails.append((f'{pre}raises-{type(e).__name__}', '_create_bunches returns bunches for inputs meeting its preconditions'
+                          + (' - on every call made on a Batch, whatever calls preceded it' if pre else ''),
+                          f'call #{si + 1}{" (a fresh Batch answers correctly for the same specs)" if pre else ""}: '
+                          f'{type(e).__name__}: {e} (B={B}, N={N}, sizes={[len(b) for b in expected][:20]})'))
+            break
+        _judge_call(m, si, groups, jobs, B, N, bunches, expected, fails)
+        _seq_classes(cls, si, bunches, any(id(s) in freed_ids for s in groups + jobs), n_edited, size_changed, prev_limits, B, N)
+        later_multi = later_multi or (si >= 1 and len(bunches) >= 2)
+        prev_limits = (B, N)
+        del bunches
+    return later_multi
+
+
+async def _run_seq_submit(case, m, cls, fails):
+    """via=submit: the real create_job_group / create_job / submit() against the recording fake server."""
+    batch, server = new_batch()
+    calls = []
+    orig = batch._create_bunches
+
+    def observed(job_group_specs, job_specs, max_bunch_bytesize, max_bunch_size):
+        # pass-through: the reference bytes are taken at call time, from the very objects the function is given
+        expected = [m['dumps'](s) for s in job_group_specs] + [m['dumps'](s) for s in job_specs]
+        out = orig(job_group_specs, job_specs, max_bunch_bytesize, max_bunch_size)
+        calls.append((list(job_group_specs), list(job_specs), max_bunch_bytesize, max_bunch_size, out, expected))
+        return out
+    batch._create_bunches = observed
+    pending_attrs = []          # attributes dicts of the specs not yet submitted (shared with the specs)
+    freed_ids = set()
+    prev_limits = None
+    later_multi = False
+    failed_before = False
+    for si, step in enumerate(case['steps']):
+        n_edited = size_changed = 0
+        for idx, target in step.get('edits', []):
+            if not pending_attrs:
+                break
+            a = pending_attrs[idx % len(pending_attrs)]
+            before = len(a['p'])
+            a['p'] = _pad(si, True) * max(0, target - 2)
+            n_edited += 1
+            size_changed += len(a['p']) != before
+        if failed_before:
+            cls.add('seq_retry_same_objects')
+            cls.add('seq_submit_failed_then_retried')
+            if step['jg'] or step['jobs']:
+                cls.add('seq_retry_adds_specs')
+        for t in step['jg']:
+            a = {'p': _pad(si) * max(0, t - 2)}
+            pending_attrs.append(a)
+            batch.create_job_group(attributes=a)
+        for t in step['jobs']:
+            a = {'p': _pad(si) * max(0, t - 2)}
+            pending_attrs.append(a)
+            batch.create_job('img', ['true'], attributes=a)
+        groups, jobs = batch._job_group_specs, batch._job_specs
+        B, N = limits(step, groups, jobs)
+        ids_now = {id(s) for s in groups + jobs}
+        recur = bool(ids_now & freed_ids)
+        want_groups = [json.loads(m['dumps'](s)) for s in groups]
+        want_jobs = [json.loads(m['dumps'](s)) for s in jobs]
+        n_calls = len(calls)
+        server.begin(step.get('fail_at'))
+        ok = False
+        try:
+            await batch.submit(max_bunch_bytesize=B, max_bunch_size=N, disable_progress_bar=True)
+            ok = True
+        except _Injected:
+            pass
+        except Exception as e:
+            expected = [m['dumps'](s) for s in groups] + [m['dumps'](s) for s in jobs]
+            pre = 'seq-' if si > 0 and _fresh_ok(m, groups, jobs, B, N, expected) else ''
+            fails.append((f'{pre}submit-raises-{type(e).__name__}', 'submit() sends the pending specs'
+                          + (' - every time, whatever submits preceded it' if pre else ''),
+                          f'submit #{si + 1}{" (a fresh Batch bunches the same specs correctly)" if pre else ""}: '
+                          f'{type(e).__name__}: {str(e)[:300]} (B={B}, N={N})'))
+            break
+        new_calls = calls[n_calls:]
+        if not new_calls and (want_groups or want_jobs) and not ok:
+            failed_before = True
+            cls.add('seq_submit_fails')
+            continue                                  # failed before bunching anything: nothing to judge
+        bunches = []
+        for cg, cj, cB, cN, bunches, expected in new_calls:
+            if (cB, cN) != (B, N) or [json.loads(b) for b in expected] != want_groups + want_jobs:
+                fails.append(('submit-passes-other-specs', 'submit() bunches exactly the pending specs with the caller\'s limits',
+                              f'submit #{si + 1}: _create_bunches got {len(cg)} groups/{len(cj)} jobs limits {(cB, cN)}, pending '
+                              f'were {len(want_groups)}/{len(want_jobs)} limits {(B, N)}'))
+            _judge_call(m, si, cg, cj, cB, cN, bunches, expected, fails)
+        cg = cj = None
+        if ok:
+            # what reached the server is this update's specs (groups in order; job bunches are posted in parallel)
+            pg, pj = [], []
+            for method, path, body in server.requests:
+                if path.endswith('/create-fast') or path.endswith('/update-fast'):
+                    pg += body['job_groups']
+                    pj += body['bunch']
+                elif path.endswith('/job-groups/create'):
+                    pg += body
+                elif path.endswith('/jobs/create'):
+                    pj += body
+            key = lambda d: json.dumps(d, sort_keys=True)       # noqa: E731
+            if pg != want_groups or sorted(map(key, pj)) != sorted(map(key, want_jobs)):
+                fails.append(('posted-specs-differ', 'the specs posted for an update are exactly that update\'s specs',
+                              f'submit #{si + 1}: posted {len(pg)} groups / {len(pj)} jobs, pending were {len(want_groups)} / '
+                              f'{len(want_jobs)}; first posted job {str(pj[:1])[:200]} want {str(want_jobs[:1])[:200]}'))
+            cls.add('seq_submit_fast_path' if len(bunches) == 1 else 'seq_submit_bunched_path' if bunches else 'seq_submit_empty')
+            if batch._job_specs or batch._job_group_specs:
+                fails.append(('pending-specs-kept-after-submit', 'a successful submit leaves no pending specs',
+                              f'submit #{si + 1}: {len(batch._job_group_specs)} groups / {len(batch._job_specs)} jobs still pending'))
+            freed_ids |= ids_now
+            pending_attrs = []
+        else:
+            cls.add('seq_submit_fails')
+        _seq_classes(cls, si, bunches, recur, n_edited, size_changed, prev_limits, B, N)
+        later_multi = later_multi or (si >= 1 and len(bunches) >= 2)
+        prev_limits = (B, N)
+        failed_before = not ok
+        del cg, cj, groups, jobs, bunches, new_calls
+        del calls[n_calls:]
+    return later_multi
+
+
+_loop = None
+
+
+def run_seq(case):
+    global _loop
+    m = mod()
+    cls, fails = set(), []
+    cls.add('seq_via_' + case['via'])
+    if case['via'] == 'call':
+        later_multi = _run_seq_calls(case, m, cls, fails)
+    else:
+        if _loop is None:
+            _loop = asyncio.new_event_loop()
+        later_multi = _loop.run_until_complete(_run_seq_submit(case, m, cls, fails))
+    dedup = {}
+    for f in fails:
+        dedup.setdefault(f[0], f)
+    return len(case['steps']) >= 2 and later_multi, sorted(cls), list(dedup.values())
+
+
 def plan(tier):
     n = 1200 if tier == 'quick' else 15000
     specs = [dict(kind='grid', part=i, of=3) for i in range(3)]
     specs += [dict(kind='hyp', n=n, big=False) for _ in range(9)]
     specs += [dict(kind='hyp', n=n // 2, big=True) for _ in range(4)]
+    specs += [dict(kind='seq', via='call', n=n // 2) for _ in range(3)]
+    specs += [dict(kind='seq', via='submit', n=n // 4) for _ in range(2)]
     return specs
 
 
@@ -191,11 +562,46 @@ def _strategy(big):
     return case()
 
 
+def _seq_strategy(via):
+    from hypothesis import strategies as st
+
+    @st.composite
+    def case(draw):
+        B = draw(st.sampled_from([16, 24, 40, 64, 100, 257, 600]) | st.integers(16, 600))
+        size = st.one_of(st.sampled_from([B - 1, B - 1, B - 2, B // 2, B // 2 + 1, B // 2 - 1, B // 3, 2, 2, 8]),
+                         st.integers(2, B - 1))
+        edits = st.lists(st.tuples(st.integers(0, 40), size).map(list), min_size=0, max_size=3)
+        steps = []
+        for si in range(draw(st.integers(2, 7))):
+            if steps and draw(st.integers(0, 2)) == 0:
+                jg, jobs = list(steps[-1]['jg']), list(steps[-1]['jobs'])      # an update shaped like the previous one
+            else:
+                jg = draw(st.lists(size, min_size=0, max_size=4))
+                jobs = draw(st.lists(size, min_size=0, max_size=9))
+            N = draw(st.one_of(st.integers(1, 6), st.integers(1, 60), st.just(1024)))
+            fit = max(1, B - max(jg + jobs, default=2))
+            step = dict(jg=jg, jobs=jobs, max_size=N, delta=draw(st.sampled_from([fit, fit, 1, 2, 3, 1 << 20])))
+            if via == 'call':
+                step['retry'] = si > 0 and draw(st.integers(0, 2)) == 0
+                if step['retry']:
+                    step['edits'] = draw(edits)
+            else:
+                step['fail_at'] = draw(st.none() | st.none() | st.integers(0, 5))
+                if steps and steps[-1].get('fail_at') is not None:
+                    step['edits'] = draw(edits)
+            steps.append(step)
+        return dict(seq=True, via=via, steps=steps)
+    return case()
+
+
 def run_shard(spec, seed, tier):
     res = Result()
     mod()
     if spec['kind'] == 'grid':
         _grid(res, spec['part'], spec['of'])
+    elif spec['kind'] == 'seq':
+        from vlib.hyp import search
+        search(res, PROPERTY, _seq_strategy(spec['via']), run_case, spec['n'], seed, shrink=True)
     else:
         from vlib.hyp import search
         search(res, PROPERTY, _strategy(spec['big']), run_case, spec['n'], seed, shrink=True)
